@@ -460,4 +460,8 @@ def run(ctx) -> None:
     from . import C14
 
     C14.own_key_rule(ctx, 'C06.parse-never-fails')
+    C14.lazy_columns(ctx)
+    from . import C08
+
+    C08.structure(ctx)
     shared.argname_scope(ctx, ('forml.io.dsl.parser', 'forml.provider.feed'), floor=2)
